@@ -193,6 +193,8 @@ def attribute(ck, pid, traces, fails, extra_props=()):
                 props.add("C07")  # posterior trimming / resampling moves whole records
             if cl == "LD_Rng":
                 props.add("C08")  # the random stream is part of what a checkpoint restores (the resumed run continues from that point)
+            if cl == "SW_LabelsFixed":
+                props.add("C03")  # forward and reverse move of a walker use the same mode: the kernel of a FIXED label is what is reversible
             if cl == "MB_SameSlots":
                 props.add("C14")  # the kernel must receive the labels the resampler assigned (as well as the same records)
             if tr["meta"].get("resumed") and cl in RESUME_CLAUSES:
